@@ -6,7 +6,7 @@ use crate::fieldapi::PF;
 use crate::ftypes::{all_infos, build_fv, leak, TypeInfo};
 use crate::gen::{self, int_of_fv, Src, FV, LIMB_CLASSES};
 use num_bigint::BigUint;
-use num_traits::One;
+use num_traits::{One, Zero};
 use proptest::prelude::*;
 use refmodel::pf;
 use serde::{Deserialize, Serialize};
@@ -165,6 +165,11 @@ fn check_p<T: PF>(c: &PCase) -> Outcome {
     if T::HAS_MUL_SMALL {
         let x = if T::NAME == "GFsecp256k1" { (c.x as u16) as u32 } else { c.x };
         chk("mul_small", guard(|| T::mul_small(a, c.x, f)), pf::mul(ia, &BigUint::from(x), &q));
+        // fixed battery around the sizes at which implementations switch between a single-word and a double-word product
+        for m in [7656u32, 7657, 8191, 8192, 0xFFFF, 0x1_0000, 0xFFFF_FFFF] {
+            let mm = if T::NAME == "GFsecp256k1" { (m as u16) as u32 } else { m };
+            chk("mul_small", guard(|| T::mul_small(a, m, f)), pf::mul(ia, &BigUint::from(mm), &q));
+        }
     }
     // sums of results remain valid operands
     chk("add_of_products", guard(|| T::add(T::mul(a, b, 0), T::square(b, 0), 0)), pf::add(&pf::mul(ia, ib, &q), &pf::mul(ib, ib, &q), &q));
@@ -257,9 +262,30 @@ impl Property for C01 {
                 let carry = prop_oneof![4 => Just(None), 1 => (prop::collection::vec(any::<u32>(), 9), prop::collection::vec(any::<u8>(), 9), 0u8..3).prop_map(Some)];
                 let ns = prop_oneof![3 => 0u32..8, 1 => 8u32..300];
                 let nl = n;
-                (first, others, ns, xs, any::<u8>(), any::<u8>(), carry)
-                    .prop_map(move |(a, mut o, n, x, form, k, carry)| {
+                let qq = q.clone();
+                // 1 case in 5: the second operand is tied to the first one so that a result (or the raw, unreduced sum) is a
+                // boundary value: raw a + raw b = 2^(64n) - 1 + d; a + b = d mod q; a - b = 0 through another representative;
+                // a * b = 1; b = a + d
+                let related = prop_oneof![4 => Just(None), 1 => (0u8..5, 0u32..3, 1u32..4).prop_map(Some)];
+                (first, others, ns, xs, any::<u8>(), any::<u8>(), carry, related)
+                    .prop_map(move |(a, mut o, n, x, form, k, carry, related)| {
                         let a = match carry { Some((js, ds, w)) if x >= 2 => gen::FV::limbs(gen::carry_limbs(x, nl, &js, &ds, w)), _ => a };
+                        // 1 case in 8: the first operand is the direct output of a unary operation (mul_small by a large
+                        // constant, mul2..32, square, half, mul3) on another value: the internal limbs are then at the top of
+                        // the range that operation can leave, which is what the next operation has to cope with
+                        let a = if k % 8 == 5 && a.chain.len() < 3 { let mut a = a; a.chain.push((6 + (form % 5), o[2].src.clone())); a } else { a };
+                        if let Some((mode, d, kq)) = related {
+                            let full = BigUint::one() << (64 * nl);
+                            let raw = match &a.src { Src::Limbs { l, .. } if a.chain.is_empty() => pf::from_limbs_le(l), _ => gen::int_of_fv(&a, &qq) };
+                            let b = match mode {
+                                0 => (&full - 1u32 - &raw + d) % &full,
+                                1 => { let t = &qq * kq + d; if t >= raw { (t - &raw) % &full } else { (&qq * (kq + 1) + d + &full - &raw) % &full } }
+                                2 => { let t = &raw + &qq * kq; if t < full { t } else if raw >= &qq * kq { &raw - &qq * kq } else { raw.clone() } }
+                                3 => { let r = &raw % &qq; if r.is_zero() { r } else { (pf::inv(&r, &qq) + d) % &qq } }
+                                _ => (&raw + d) % &full,
+                            };
+                            o[0] = gen::FV::limbs(gen::limbs_of(&b, nl));
+                        }
                         let mut v = vec![a];
                         v.append(&mut o);
                         Case::P(PCase { ty: ty as u16, tyname: name.clone(), v, n, x, form, k })
